@@ -230,11 +230,14 @@ Proof.
       exact G.
   - (* non-negative exponent *)
     apply Z.ltb_ge in Eb. rewrite andb_false_r.
-    assert (good_res (Ok (Big (binary_pow (ival a) (ival b)))) (Ok (ival a ^ ival b))) as G.
-    { cbn [good_res]. apply good_big. rewrite binary_pow_spec, Z.abs_eq by lia. reflexivity. }
+    assert (good_res (Ok (Big (binary_pow (ival a) (ival b)))) (Ok (zpow (ival a) (ival b)))) as G.
+    { cbn [good_res]. apply good_big. reflexivity. }
     destruct a as [x|x], b as [y|y]; cbn [ival] in *; auto.
     destruct ((0 <=? y) && (y <=? u32_max)); auto.
-    destruct (checked (x ^ y)) eqn:Ec; auto.
+    destruct (checked (zpow x y)) eqn:Ec; auto.
     apply checked_some in Ec. subst. cbn [good_res]. apply good_norm.
 Qed.
 
+
+Lemma zpow_eq a b : 0 <= b -> zpow a b = a ^ b.
+Proof. intros H. unfold zpow. rewrite binary_pow_spec, Z.abs_eq by lia. reflexivity. Qed.
